@@ -1101,21 +1101,19 @@ func isEmptyValue(v interface{}) bool {
 		return value == ""
 	case bool:
 		return !value
-	case int, int8, int16, int32, int64:
-		return value == 0
-	case uint, uint8, uint16, uint32, uint64:
-		return value == 0
-	case float32, float64:
-		return value == 0
 	case []interface{}:
 		return len(value) == 0
 	case map[string]interface{}:
 		return len(value) == 0
 	}
 
-	// Use reflection for other types
+	// Use reflection for other types (numbers of every kind too: in a case that
+	// lists several types the value keeps its interface type, and an interface
+	// holding float64(0) or int8(0) is not equal to the constant 0)
 	rv := reflect.ValueOf(v)
 	switch rv.Kind() {
+	case reflect.Ptr, reflect.Interface:
+		return rv.IsNil()
 	case reflect.Array, reflect.Slice, reflect.Map:
 		return rv.Len() == 0
 	case reflect.Bool:
@@ -1312,6 +1310,17 @@ func toInt(v interface{}) (int, error) {
 		return 0, nil
 	}
 
+	// Numbers of the other kinds (int32, uint8, float32, named types ...)
+	rv := reflect.ValueOf(v)
+	switch rv.Kind() {
+	case reflect.Int, reflect.Int8, reflect.Int16, reflect.Int32, reflect.Int64:
+		return int(rv.Int()), nil
+	case reflect.Uint, reflect.Uint8, reflect.Uint16, reflect.Uint32, reflect.Uint64:
+		return int(rv.Uint()), nil
+	case reflect.Float32, reflect.Float64:
+		return int(rv.Float()), nil
+	}
+
 	return 0, fmt.Errorf("cannot convert %T to int", v)
 }
 
@@ -1340,6 +1349,17 @@ func toFloat64(v interface{}) (float64, error) {
 			return 1, nil
 		}
 		return 0, nil
+	}
+
+	// Numbers of the other kinds (int8 ... uint64, named types)
+	rv := reflect.ValueOf(v)
+	switch rv.Kind() {
+	case reflect.Int, reflect.Int8, reflect.Int16, reflect.Int32, reflect.Int64:
+		return float64(rv.Int()), nil
+	case reflect.Uint, reflect.Uint8, reflect.Uint16, reflect.Uint32, reflect.Uint64:
+		return float64(rv.Uint()), nil
+	case reflect.Float32, reflect.Float64:
+		return rv.Float(), nil
 	}
 
 	return 0, fmt.Errorf("cannot convert %T to float64", v)
@@ -2011,12 +2031,23 @@ func (e *CoreExtension) filterSort(value interface{}, args ...interface{}) (inte
 			result.Index(i).Set(rv.Index(i))
 		}
 
-		// Use sort.SliceStable for a stable sort
+		// Numbers (of any kind: []int32, []uint8, []float32 ...) are ordered by
+		// value, everything else by its text
+		numeric := false
+		switch rv.Type().Elem().Kind() {
+		case reflect.Int, reflect.Int8, reflect.Int16, reflect.Int32, reflect.Int64,
+			reflect.Uint, reflect.Uint8, reflect.Uint16, reflect.Uint32, reflect.Uint64,
+			reflect.Float32, reflect.Float64:
+			numeric = true
+		}
 		sort.SliceStable(result.Interface(), func(i, j int) bool {
 			a := result.Index(i).Interface()
 			b := result.Index(j).Interface()
-
-			// Always sort by string representation for consistency
+			if numeric {
+				fa, _ := toFloat64(a)
+				fb, _ := toFloat64(b)
+				return fa < fb
+			}
 			return toString(a) < toString(b)
 		})
 
